@@ -294,7 +294,13 @@ def particle_number_measurement(
 
     if shots is None:
         if marginal_sampling:
-            probabilities = state.get_marginal_fock_probabilities(modes=modes)
+            # NOTE: The instruction addresses the modes which are still active, but the
+            # state addresses its own modes, including the postselected ones.
+            original_modes = map_to_original_modes(modes, postselected_modes)
+
+            probabilities = state.get_marginal_fock_probabilities(
+                modes=original_modes
+            )
 
             return [
                 Branch(
